@@ -28,3 +28,13 @@ Proof. exact established_undisturbed. Qed.
 
 Theorem C17_handshake_sees_latest : forall es s, i_cur (final s es) = last_reload (i_cur s) es.
 Proof. exact handshake_sees_latest. Qed.
+
+(* the requested name: --tls-server-name over --hostname over the URL host, whatever the others are *)
+Theorem C17_sni_overrides : forall url hn n, select_name url hn (Some n) = n.
+Proof. exact sni_overrides. Qed.
+Theorem C17_hostname_overrides_url : forall url h, select_name url (Some h) None = h.
+Proof. exact hostname_overrides_url. Qed.
+Theorem C17_url_host_by_default : forall url, select_name url None None = url.
+Proof. exact url_host_by_default. Qed.
+Theorem C17_name_case_iff : forall url hn sni, name_case_reaches url hn sni false = true <-> select_name url hn sni = 1.
+Proof. exact name_case_iff. Qed.
